@@ -128,9 +128,15 @@ class Ctx:
         return p.returncode, p.stdout.decode("utf-8", "replace")
 
     # ----------------------------------------------------------------- build
-    def build(self, pkgs):
-        """Build harness binaries against /repo's current working tree."""
-        cmd = ["cargo", "build", "--release", "--offline"]
+    def build(self, pkgs, profile="release"):
+        """Build harness binaries against /repo's current working tree.
+        profile: a cargo profile of the harness workspace ("release": overflow checks and debug
+        assertions off - what users ship; "checked": release + overflow-checks + debug-assertions)."""
+        cmd = ["cargo", "build", "--offline"]
+        cmd += ["--release"] if profile == "release" else ["--profile", profile]
+        jobs = os.environ.get("VERIF_CARGO_JOBS")
+        if jobs:
+            cmd += ["-j", jobs]
         for p in pkgs:
             cmd += ["-p", p]
         env = {"CARGO_NET_OFFLINE": "true"}
@@ -138,19 +144,19 @@ class Ctx:
         rc, out = self.run(cmd, cwd=HARNESS, env=env, timeout=3600)
         if rc != 0:
             sys.stdout.write(out[-6000:])
-            raise ToolError("cargo build failed for %s" % pkgs)
-        self.log("built %s in %.1fs" % (",".join(pkgs), time.time() - t))
+            raise ToolError("cargo build (%s) failed for %s" % (profile, pkgs))
+        self.log("built %s (%s) in %.1fs" % (",".join(pkgs), profile, time.time() - t))
 
-    def bin(self, name):
+    def bin(self, name, profile="release"):
         tgt = os.environ.get("CARGO_TARGET_DIR") or os.path.join(HARNESS, "target")
-        return os.path.join(tgt, "release", name)
+        return os.path.join(tgt, profile, name)
 
-    def harness(self, binname, args, timeout=1800, env=None, stdin=None, ok_codes=(0,)):
+    def harness(self, binname, args, timeout=1800, env=None, stdin=None, ok_codes=(0,), profile="release"):
         e = {"VERIF_SEED": str(self.seed), "VERIF_TIER": self.tier}
         if env:
             e.update(env)
         t = time.time()
-        rc, out = self.run([self.bin(binname)] + [str(a) for a in args], timeout=timeout, env=e,
+        rc, out = self.run([self.bin(binname, profile)] + [str(a) for a in args], timeout=timeout, env=e,
                            cwd=self.work, stdin=stdin)
         if rc not in ok_codes:
             sys.stdout.write(out[-4000:])
